@@ -10,6 +10,8 @@ bound to the real code through `Wtp.expand('{{fn:...}}')`.
      evaluation both compute Fold(tree) from the minimal and from the full
      parenthesisation.  MC_Expr (soups): on every token sequence up to the bound
      the ladder accepts exactly the documented language and computes the same.
+     MC_Expr (tokenizer): every pair of lexemes, in lower or upper case, with any
+     blanks between them (or none, unless they would merge) is lexed as itself.
      Demo_Expr_asis: with the as-is behaviours switched on TLC finds the
      counterexample.
   G  Gen_Expr: every tree with TLC's value; each is rendered (min/full x
@@ -179,6 +181,8 @@ def part_expr(o: Outcome, thorough: bool):
     o.add_tlc("MC_Expr_trees", r)
     r = tlc("MC_Expr", "MC_Expr_soup.cfg", workers=16, timeout=3000)
     o.add_tlc("MC_Expr_soup", r)
+    r = tlc("MC_Expr", "MC_Expr_tokenizer.cfg", workers=8, timeout=3000)
+    o.add_tlc("MC_Expr_tokenizer", r)
     r = tlc("MC_Expr", "Demo_Expr_asis.cfg", workers=4, check=False)
     o.extra["demo_expr_asis_violates"] = bool(r.invariant_violated)
     if not r.invariant_violated:
